@@ -22,7 +22,7 @@ RULE = ('files: multi-chunk multi-segment model files (contiguous, interleaved, 
         'ops; non-trivial = history with >=2 live generators interleaved with >=1 random read; distinct = (file signature, op-kind sequence)')
 ASSUMPTIONS = ['a generator created at step k must deliver the same chunk sequence as one created on a fresh file']
 REQUIRED = ['family:long', 'ops', 'gen_next_checked', 'generators_drained', 'file_generators', 'channel_generators', 'family:model', 'family:daqmx']
-N = {'quick': 8000, 'thorough': 100000}
+N = {'quick': 8000, 'thorough': 400000}
 KINDS = ['index', 'slice', 'read', 'new_gen', 'next_chan', 'next_file']
 
 
